@@ -211,14 +211,16 @@ def looked_up_hash_is_the_stored_hash(F, R):
         if not any('deserialize(' in c for c in conds):
             continue    # the Ok(None) exit (storage does not exist)
         n += 1
-        ok = any(re.search(r'^!\w*(::)?ne\(service_hash, StaticConfig::service_hash\(', c) or re.search(r'^\w*(::)?eq\(service_hash, StaticConfig::service_hash\(', c) or re.search(r'^\(service_hash == StaticConfig::service_hash\(', c) or re.search(r'^\(StaticConfig::service_hash\(.* == service_hash\)$', c) for c in conds)
+        hp = r'\$%d' % lib.param_index(f, 'service_hash', 2)
+        cc = [lib.canon(f, c) for c in conds]
+        ok = any(re.search(r'^\(%s == StaticConfig::service_hash\(' % hp, c) or re.search(r'^\(StaticConfig::service_hash\(.* == %s\)$' % hp, c) for c in cc)
         if not ok:
             # the comparison may equally live in the common caller of every lookup (__internal_details)
             g = F.fn_opt('iceoryx2::service::__internal_details')
             if g is not None:
                 for b_ in range(len(g.blocks)):
                     t_ = g.blocks[b_]['t']
-                    if t_[0] == 'switch' and re.search(r'service_hash', sym_nstr(sym(g, t_[1]))) and re.search(r'\bne\(|\beq\(|==|!=', sym_nstr(sym(g, t_[1]))) and g.calls(r'read_static_service_config$') and all(g.dominates(g.term_site(b_), e_) for e_ in g.ok_exit_sites() if any('read_static_service_config' in c_ for c_ in lib.path_conds(g, e_, F))):
+                    if t_[0] == 'switch' and re.search(r'StaticConfig::service_hash\(', sym_nstr(sym(g, t_[1]))) and re.search(r'\bne\(|\beq\(|==|!=', sym_nstr(sym(g, t_[1]))) and g.calls(r'read_static_service_config$') and all(g.dominates(g.term_site(b_), e_) for e_ in g.ok_exit_sites() if any('read_static_service_config' in c_ for c_ in lib.path_conds(g, e_, F))):
                         ok = True
         R.ob('ONLY-UNDER', 'ONLY-UNDER::%s::config-returned-only-if-stored-hash-matches' % fnkey(f), ok, 'Ok(Some(config)) is returned under %s' % ([c[:70] for c in conds if 'hash' in c][:2] or 'no hash comparison'), o.where, f)
     R.floor('config-returning exits of read_static_service_config', n, 1)
